@@ -44,14 +44,9 @@ def WF_parts(g):
 def WF(g): return And(*[f for _, f in WF_parts(g)])
 
 
-# all values of all groups (ordered: groups in key order) -- spec function with its membership characterisation
-AllVals = Function('AllVals', DVL.sort(), LVAL.sort())
-Own = Function('OwnerOf', DVL.sort(), Val, Val)
-_d = Const('d', DVL.sort()); _v, _k = Consts('v_av k_av', Val)
-discharge.EXTRA_AXIOMS += [
-    ForAll([_d, _v], Implies(Has(AllVals(_d), _v), And(DVL.has(_d, Own(_d, _v)), Has(DVL.get(_d, Own(_d, _v)), _v))), patterns=[Has(AllVals(_d), _v)]),
-    ForAll([_d, _k, _v], Implies(And(DVL.has(_d, _k), Has(DVL.get(_d, _k), _v)), Has(AllVals(_d), _v)), patterns=[MultiPattern(Has(DVL.get(_d, _k), _v), AllVals(_d))]),
-]
+from pyvc.comps import dict_allvals, dedup_fn
+AllVals, Own = dict_allvals(DVL)
+Dedup = dedup_fn(LVAL)
 
 
 def known(g, v):
@@ -128,3 +123,158 @@ spec(qual='GroupedList.group', params=[('self', GL), ('discarded', VAL), ('kept'
      requires=lambda o: WF(o['self']),
      raises={'AssertionError': lambda o: And(o['discarded'] != o['kept'], Or(Not(Has(L(o['self']), o['discarded'])), Not(Has(L(o['self']), o['kept']))))},
      ensures=group_post)
+
+# ------------------------------------------------------------------------------------------------ observers
+def get_val(g, k): return If(Has(K(g), k), grp(g, k), Emp)
+spec(qual='GroupedList.get', params=[('self', GL), ('key', VAL), ('default', None)], returns=LVAL, defaults={'default': None},
+     locals={'default_value': LVAL},
+     ensures=lambda o, n, r: [('members_or_empty', r == get_val(o['self'], o['key']))])
+
+spec(qual='GroupedList.values', params=[('self', GL)], returns=LVAL,
+     ensures=lambda o, n, r: [('all_members', r == AllVals(C(o['self'])))])
+
+spec(qual='GroupedList.contains', params=[('self', GL), ('value', VAL)], returns=BOOL,
+     ensures=lambda o, n, r: [('iff_member_of_some_group', r == Has(AllVals(C(o['self'])), o['value']))])
+
+def get_group_post(o, n, r):
+    g, v = o['self'], o['value']
+    k = fv('k')
+    return [('leader_of_containing_group', Implies(Has(AllVals(C(g)), v), And(Has(K(g), r), Has(grp(g, r), v)))),
+            ('itself_when_unknown', Implies(Not(Has(AllVals(C(g)), v)), r == v))]
+spec(qual='GroupedList.get_group', params=[('self', GL), ('value', VAL)], returns=VAL,
+     requires=lambda o: WF(o['self']), ensures=get_group_post)
+
+# ------------------------------------------------------------------------------------------------ update(dict)
+def update_post(o, n, r):
+    g0, g1, nv = o['self'], n['self'], o['new_value']
+    x = fv('x')
+    return [('list_grows_only', lv.Prefix(L(g0), L(g1))),
+            ('list_members', ForAll([x], Has(L(g1), x) == Or(Has(L(g0), x), DVL.has(nv, x)), patterns=[Has(L(g1), x)])),
+            ('keys_members', ForAll([x], Has(K(g1), x) == Or(Has(K(g0), x), DVL.has(nv, x)), patterns=[Has(K(g1), x)])),
+            ('groups', ForAll([x], grp(g1, x) == If(DVL.has(nv, x), DVL.get(nv, x), grp(g0, x)), patterns=[grp(g1, x)])),
+            ('list_nodup', Nodup(L(g1))), ('keys_nodup', Nodup(K(g1)))]
+spec(qual='GroupedList.update', params=[('self', GL), ('new_value', DVL)], modifies=['self'],
+     requires=lambda o: And(WF(o['self']), Nodup(DVL.keys(o['new_value']))), ensures=update_post)
+
+# ------------------------------------------------------------------------------------------------ group_list
+# spec functions (recursive over the number n of processed elements of to_discard)
+RmAllBut = Function('RmAllBut', LVAL.sort(), LVAL.sort(), IntSort(), Val, LVAL.sort())       # leaders left after n steps
+MergedInto = Function('MergedInto', GL.sort(), LVAL.sort(), IntSort(), Val, LVAL.sort())      # members of `keep` after n steps
+_s, _td = Consts('s_gl td_gl', LVAL.sort()); _g = Const('g_gl', GL.sort()); _nn = Int('n_gl'); _kp = Const('kp_gl', Val)
+discharge.EXTRA_AXIOMS += [
+    ForAll([_s, _td, _kp], RmAllBut(_s, _td, 0, _kp) == _s, patterns=[RmAllBut(_s, _td, 0, _kp)]),
+    ForAll([_s, _td, _nn, _kp], Implies(And(0 <= _nn, _nn < Len(_td)), RmAllBut(_s, _td, _nn + 1, _kp) ==
+           If(At(_td, _nn) == _kp, RmAllBut(_s, _td, _nn, _kp), Rm(RmAllBut(_s, _td, _nn, _kp), At(_td, _nn)))), patterns=[RmAllBut(_s, _td, _nn + 1, _kp)]),
+    ForAll([_g, _td, _kp], MergedInto(_g, _td, 0, _kp) == grp(_g, _kp), patterns=[MergedInto(_g, _td, 0, _kp)]),
+    ForAll([_g, _td, _nn, _kp], Implies(And(0 <= _nn, _nn < Len(_td)), MergedInto(_g, _td, _nn + 1, _kp) ==
+           If(At(_td, _nn) == _kp, MergedInto(_g, _td, _nn, _kp), App(grp(_g, At(_td, _nn)), MergedInto(_g, _td, _nn, _kp)))), patterns=[MergedInto(_g, _td, _nn + 1, _kp)]),
+]
+
+def gl_state(g0, g, td, keep, n):
+    """state of self after the first n elements of to_discard were grouped into keep"""
+    x, j = fv('x'), Int('j!%d' % (_n[0] + 1))
+    return And(
+        WF(g),
+        L(g) == RmAllBut(L(g0), td, n, keep),
+        K(g) == RmAllBut(K(g0), td, n, keep),
+        grp(g, keep) == MergedInto(g0, td, n, keep),
+        Has(L(g), keep),
+        # leaders not yet processed are still leaders, with their original members
+        ForAll([j], Implies(And(n <= j, j < Len(td)), And(Has(L(g), At(td, j)), Implies(At(td, j) != keep, grp(g, At(td, j)) == grp(g0, At(td, j))))), patterns=[At(td, j)]),
+        ForAll([x], Implies(And(x != keep, Not(Has(td, x))), And(grp(g, x) == grp(g0, x), Has(L(g), x) == Has(L(g0), x))), patterns=[grp(g, x)]),
+        same_members_except(g0, g))
+
+def group_list_req(o):
+    g, td, keep = o['self'], o['to_discard'], o['to_keep']; j = Int('jr')
+    return And(WF(g), Has(L(g), keep), Nodup(td), ForAll([j], Implies(And(0 <= j, j < Len(td)), Has(L(g), At(td, j))), patterns=[At(td, j)]))
+
+spec(qual='GroupedList.group_list', params=[('self', GL), ('to_discard', LVAL), ('to_keep', VAL)], modifies=['self'],
+     requires=group_list_req,
+     ensures=lambda o, n, r: [('state_after_all', gl_state(o['self'], n['self'], o['to_discard'], o['to_keep'], Len(o['to_discard'])))],
+     loops={0: LoopSpec(inv=lambda o, v, k: gl_state(o['self'], v['self'], o['to_discard'], o['to_keep'], k))})
+
+# ------------------------------------------------------------------------------------------------ constructors
+def spec_ctor(name, **kw):
+    s = FunctionSpec(qual='GroupedList.__init__', file=FILE, cls='GroupedList', name=name, constructs=GL, **kw); SPECS[name] = s; return s
+
+# (a) from a duplicate-free list (precondition derived from the call sites: nan_unique(...), quantiles + [inf], [], known_values, labels)
+spec_ctor('GroupedList.__init__@list', params=[('self', GL), ('iterable', LVAL)], modifies=['self'],
+    requires=lambda o: Nodup(o['iterable']),
+    ensures=lambda o, n, r: (lambda g, s: [
+        ('list', L(g) == s), ('keys', K(g) == s),
+        ('singleton_groups', (lambda v: ForAll([v], Implies(Has(s, v), grp(g, v) == One(v)), patterns=[grp(g, v)]))(fv('v'))),
+        ('wf', WF(g))])(n['self'], o['iterable']))
+
+# (b) copy of a GroupedList: equal view
+spec_ctor('GroupedList.__init__@copy', params=[('self', GL), ('iterable', GL)], modifies=['self'],
+    ensures=lambda o, n, r: [('equal_view', n['self'] == o['iterable']), ('wf_copied', Implies(WF(o['iterable']), WF(n['self'])))])
+
+# (c) from a content dict
+Grouped = Function('GroupedElsewhere', DVL.sort(), Val, BoolSort())      # key k occurs in the values of another key
+G2 = Function('GroupedBy', DVL.sort(), Val, Val)
+KeptKeys = Function('KeptKeys', DVL.sort(), IntSort(), LVAL.sort())
+_it = Const('it_c', DVL.sort()); _k1, _k2 = Consts('k1_c k2_c', Val)
+discharge.EXTRA_AXIOMS += [
+    ForAll([_it, _k1], Implies(Grouped(_it, _k1), And(DVL.has(_it, G2(_it, _k1)), G2(_it, _k1) != _k1, Has(DVL.get(_it, G2(_it, _k1)), _k1))), patterns=[Grouped(_it, _k1)]),
+    ForAll([_it, _k1, _k2], Implies(And(DVL.has(_it, _k2), _k2 != _k1, Has(DVL.get(_it, _k2), _k1)), Grouped(_it, _k1)), patterns=[MultiPattern(Has(DVL.get(_it, _k2), _k1), Grouped(_it, _k1))]),
+    ForAll([_it], KeptKeys(_it, 0) == DVL.keys(_it), patterns=[KeptKeys(_it, 0)]),
+    ForAll([_it, _nn], Implies(And(0 <= _nn, _nn < Len(DVL.keys(_it))), KeptKeys(_it, _nn + 1) ==
+           If(Grouped(_it, At(DVL.keys(_it), _nn)), Rm(KeptKeys(_it, _nn), At(DVL.keys(_it), _nn)), KeptKeys(_it, _nn))), patterns=[KeptKeys(_it, _nn + 1)]),
+]
+def own_group(it, k): return If(Has(DVL.get(it, k), k), DVL.get(it, k), App(DVL.get(it, k), One(k)))
+def ctor_dict_state(it, keysv, content, n):
+    x, j = fv('x'), Int('j!%d' % (_n[0] + 1)); Kit = DVL.keys(it)
+    j2 = Int('j2!%d' % (_n[0] + 1))
+    return And(keysv == KeptKeys(it, n), DVL.keys(content) == keysv, Nodup(keysv),
+               Implies(ForAll([j2], Implies(And(0 <= j2, j2 < n), Not(Grouped(it, At(Kit, j2)))), patterns=[At(Kit, j2)]), keysv == Kit),
+               ForAll([x], Has(keysv, x) == And(Has(Kit, x), Or(Idx(Kit, x) >= n, Not(Grouped(it, x)))), patterns=[Has(keysv, x)]),
+               ForAll([j], Implies(And(0 <= j, j < Len(Kit)), DVL.get(content, At(Kit, j)) == If(And(j < n, Not(Grouped(it, At(Kit, j)))), own_group(it, At(Kit, j)), DVL.get(it, At(Kit, j)))), patterns=[At(Kit, j)]))
+def ctor_dict_post(o, n, r):
+    g, it = n['self'], o['iterable']; Kit = DVL.keys(it); x = fv('x')
+    j2 = Int('j2!%d' % (_n[0] + 1))
+    return [('leaders_are_ungrouped_keys_in_order', L(g) == KeptKeys(it, Len(Kit))), ('keys', K(g) == L(g)),
+            ('all_keys_kept_if_none_grouped', Implies(ForAll([j2], Implies(And(0 <= j2, j2 < Len(Kit)), Not(Grouped(it, At(Kit, j2)))), patterns=[At(Kit, j2)]), L(g) == Kit)),
+            ('leader_iff', ForAll([x], Has(L(g), x) == And(Has(Kit, x), Not(Grouped(it, x))), patterns=[Has(L(g), x)])),
+            ('groups', ForAll([x], Implies(Has(L(g), x), grp(g, x) == own_group(it, x)), patterns=[grp(g, x)])),
+            ('wf', WF(g))]
+spec_ctor('GroupedList.__init__@dict', params=[('self', GL), ('iterable', DVL)], modifies=['self'],
+    requires=lambda o: Nodup(DVL.keys(o['iterable'])),
+    raises={'AssertionError': lambda o: Not(Nodup(AllVals(o['iterable'])))},
+    ensures=ctor_dict_post,
+    loops={0: LoopSpec(inv=lambda o, v, k: ctor_dict_state(o['iterable'], v['keys'], C(v['self']), k))})
+
+# ------------------------------------------------------------------------------------------------ sort_by / sort
+def same_view_reordered(g0, r, leaders):
+    x = fv('x')
+    return [('leaders', L(r) == leaders), ('keys', K(r) == leaders),
+            ('groups_kept', ForAll([x], Implies(Has(L(r), x), grp(r, x) == grp(g0, x)), patterns=[grp(r, x)])),
+            ('wf', WF(r))]
+def same_members(s, t):
+    x = fv('x'); return ForAll([x], Has(s, x) == Has(t, x), patterns=[Has(s, x), Has(t, x)])
+spec(qual='GroupedList.sort_by', params=[('self', GL), ('ordering', LVAL)], returns=GL,
+     requires=lambda o: WF(o['self']),
+     raises={'AssertionError': lambda o: Not(same_members(o['ordering'], L(o['self'])))},
+     locals={'sorted_list': GL},
+     ensures=lambda o, n, r: same_view_reordered(o['self'], r, Dedup(o['ordering'])))
+
+# numpy.sort on a list of mutually comparable atoms: ASSUMED to return a permutation (the order itself is not used by any contract)
+SPECS['sort'] = FunctionSpec(qual='sort', file=FILE, params=[('a', LVAL)], returns=LVAL, pure=True,
+    ensures=lambda o, n, r: [('perm', lv.Perm(r, o['a']))], note='ASSUMED numpy.sort returns a permutation of its input')
+def sort_post(o, n, r):
+    g0 = o['self']; x = fv('x')
+    return [('same_leaders', same_members(L(r), L(g0))), ('keys', K(r) == L(r)),
+            ('groups_kept', ForAll([x], Implies(Has(L(r), x), grp(r, x) == grp(g0, x)), patterns=[grp(r, x)])), ('wf', WF(r))]
+spec(qual='GroupedList.sort', params=[('self', GL)], returns=GL, requires=lambda o: WF(o['self']), ensures=sort_post)
+
+# ------------------------------------------------------------------------------------------------ replace_group_leader
+def rgl_post(o, n, r):
+    g0, g1, ld, mb = o['self'], n['self'], o['group_leader'], o['group_member']
+    return [('list', L(g1) == lv.Upd(L(g0), Idx(L(g0), ld), mb)),
+            ('members_moved', grp(g1, mb) == grp(g0, ld)),
+            ('frame_other_groups', frame_groups(g0, g1, [ld, mb])),
+            ('no_value_lost', same_members_except(g0, g1)),
+            ('wf', WF(g1))]
+spec(qual='GroupedList.replace_group_leader', params=[('self', GL), ('group_leader', VAL), ('group_member', VAL)], modifies=['self'],
+     requires=lambda o: And(WF(o['self']), Has(L(o['self']), o['group_leader'])),
+     raises={'AssertionError': lambda o: Not(Has(grp(o['self'], o['group_leader']), o['group_member']))},
+     ensures=rgl_post)
